@@ -131,10 +131,15 @@ def check_batch(ctx, entries, rules, cfg, tag):
         set_adversarial(True, ctx.seed * 17 + ctx.evaluations)
     try:
         eh, it = (True, False) if cfg.get("mode") == "explicit" else (False, True)
-        b = BatchReactor(entries, strategy="bt", explicit_h=eh, implicit_temp=it, enable_logging=True, **kw)
-        res = b.fit(fit_rules, invert=invert)
-        if cfg.get("refit"):
-            res = b.fit(fit_rules if cfg.get("repeat_objs") else rules, invert=invert)  # same reactor again: cache survives
+        try:
+            b = BatchReactor(entries, strategy="bt", explicit_h=eh, implicit_temp=it, enable_logging=True, **kw)
+            res = b.fit(fit_rules, invert=invert)
+            if cfg.get("refit"):
+                res = b.fit(fit_rules if cfg.get("repeat_objs") else rules, invert=invert)  # same reactor again: cache survives
+        except Exception as e:
+            ctx.violation("batch-raises", {"entries": entries, "rules": rules, "cfg": cfg},
+                          f"BatchReactor{sorted(kw.items())} raises {type(e).__name__}: {str(e)[:150]} (the same entries are processed alone without error)")
+            return
     finally:
         if cfg.get("adversarial"):
             set_adversarial(False)
@@ -416,7 +421,7 @@ def run(ctx):
             entries = [rng.choice(corpus_subs) for _ in range(rng.randint(4, 8))]
             entries += [entries[0]]
             rules = rng.sample(corpus_rules, 3)
-        cfgs = [{"cache_enabled": True}, {"cache_enabled": False}, {"cache_enabled": True, "cache_maxsize": rng.choice([1, 2, 8])},
+        cfgs = [{"cache_enabled": True}, {"cache_enabled": False}, {"cache_enabled": True, "cache_maxsize": rng.choice([0, 1, 2, 8])},
                 {"cache_enabled": True, "cache_maxsize": 2, "adversarial": True, "refit": True},
                 {"cache_enabled": True, "graphs": True, "refit": True}, {"invert": True}]
         k = rng.randint(3, 5)
